@@ -212,6 +212,51 @@ def hasRuntimeBy (pats : List KPat) (κ : Nat → Kind) (cd : Nat → Bool) : GT
   | .record _ => pats.any (·.matches .record) && cloneDropOf .record false
   | .enum _ => pats.any (·.matches .enum) && cloneDropOf .enum false
 
+/-! ### Which body a generated function gets, and the vtable of a list element -/
+
+inductive BodyArm where
+  /-- `self.emit_return(None);`: the function does nothing -/
+  | ret
+  /-- `generate_drop_body_record` / `generate_clone_body_record` -/
+  | recordLoop
+  /-- `generate_drop_body_enum` / `generate_clone_body_enum` -/
+  | enumSwitch
+  /-- `memcpy` of the whole value, then return (a registered `Copy` type) -/
+  | memcpyRet
+  /-- `ice!(…)`: must be unreachable -/
+  | ice
+  deriving DecidableEq, Repr, Inhabited
+
+/-- `generate_drop_body` / `generate_clone_body`: whether
+    `if let Some(f) = self.get_runtime_…(ty) { <f on the value>; return }` precedes the match on
+    the type, and the arms of that match -/
+structure BodyFn where
+  runtimeFirst : Bool
+  arms : List (KPat × BodyArm)
+  deriving Repr, Inhabited
+
+inductive Body where
+  /-- the runtime drop / clone function on the value itself -/
+  | runtime
+  | arm (a : BodyArm)
+  /-- no arm matches (the Rust `match` would not compile) -/
+  | none
+  deriving DecidableEq, Repr, Inhabited
+
+def bodyArmOf : List (KPat × BodyArm) → Kind → Body
+  | [], _ => .none
+  | (p, a) :: rest, k => if p.matches k then .arm a else bodyArmOf rest k
+
+/-- the body of the generated function of a type of kind `k`; `hasRt` = the runtime lookup succeeds -/
+def BodyFn.body (B : BodyFn) (hasRt : Bool) (k : Kind) : Body :=
+  if B.runtimeFirst && hasRt then .runtime else bodyArmOf B.arms k
+
+/-- `call_runtime`: the vtable gets the function `fn` of the element type when `needs_<cond>` -/
+structure VtFn where
+  cond : Fn
+  fn : Fn
+  deriving DecidableEq, Repr, Inhabited
+
 /-- the kinds a leaf can have -/
 def Kind.isLeaf : Kind → Bool
   | .record | .enum => false
